@@ -163,6 +163,7 @@ fn frames() -> Vec<(String, Frame)> {
     v.push(("Error(empty message, code 0)".into(), Frame::Error(ErrorPayload { code: 0, message: Bytes::new() })));
     v.push(("RegisterPublisher(no operations)".into(), Frame::RegisterPublisher(PublisherPayload { topic: topic(), retention_policy: 0, operations: vec![] })));
     v.push(("BatchMessage(empty)".into(), Frame::BatchMessage(Bytes::new())));
+    v.push(("Message(5 bytes, non-ASCII header names and values)".into(), Frame::Message(MessagePayload { headers: Some(HashMap::from([("origin".to_string(), "Z\u{fc}rich \u{2708} \u{6771}\u{4eac}".to_string()), ("cl\u{e9}".to_string(), "\u{1f600}".to_string())])), message: Bytes::from_static(b"hello") })));
     v
 }
 fn encode(f: &Frame) -> Result<BytesMut, String> {
@@ -176,7 +177,7 @@ fn codec_cases() -> Vec<Case> {
         let f1 = f.clone();
         out.push(Case {
             name: format!("round trip of {name}"),
-            props: "C05",
+            props: "C05 C01 C02 C08",
             run: Box::new(move || {
                 let mut enc = match encode(&f1) {
                     Ok(e) => e,
@@ -253,7 +254,7 @@ fn codec_cases() -> Vec<Case> {
     for n in [LIMIT + 1, LIMIT - 8, LIMIT - 20, 2 * LIMIT] {
         out.push(Case {
             name: format!("a Message of {n} bytes (refused if over the limit), then a small frame, encoded into one buffer"),
-            props: "C05 C11",
+            props: "C05 C11 C01 C02 C08",
             run: Box::new(move || {
                 let mut dst = BytesMut::new();
                 let first = msg(n, false);
@@ -283,7 +284,7 @@ fn codec_cases() -> Vec<Case> {
     for n in [LIMIT + 1, 2 * LIMIT] {
         out.push(Case {
             name: format!("a small frame, a Message of {n} bytes (refused), another small frame, encoded into one buffer"),
-            props: "C05 C11",
+            props: "C05 C11 C01 C02 C08",
             run: Box::new(move || {
                 let mut dst = BytesMut::new();
                 let (a, b) = (msg(7, true), msg(9, false));
